@@ -160,6 +160,11 @@ class _Stop(BaseException):
     pass
 
 
+def _unlisted(fails):
+    """failures other than the listed two-rename window (a listed one must never use up the room of an unlisted one)"""
+    return sum(1 for f in fails if not f["model"].get("replace_between_its_two_renames"))
+
+
 def enum_crashes(seed):
     import tempfile
     import pkgcore.vdb.repo_ops as V
@@ -223,14 +228,14 @@ def enum_crashes(seed):
             except _Stop:
                 stopped = True
             except Exception as e:
-                if len(fails) < 5:
+                if _unlisted(fails) < 5:
                     fails.append({"model": {"operation": label, "stop_before_file_operation": stop}, "detail": f"{label}: raised {type(e).__name__}: {e}"})
             finally:
                 os.rename, os.unlink, os.rmdir = real["rename"], real["unlink"], real["rmdir"]
                 shutil.rmtree = real_rmtree
             cases += 1
             v = view(cat)
-            if v not in (old_view, new_view) and v not in allowed_extra and len(fails) < 5:
+            if v not in (old_view, new_view) and v not in allowed_extra and _unlisted(fails) < 5:
                 fails.append({"model": {"operation": label, "stop_before_file_operation": stop, "listing": v},
                               "detail": f"{label} stopped before file operation #{stop}: a fresh listing shows {v}; old state {old_view}, new state {new_view}"})
             elif v in allowed_extra and v not in (old_view, new_view):
